@@ -41,6 +41,27 @@ Theorem c22_stored_with_its_epoch : forall l c seq m d,
 Proof. exact stored_with_epoch_run. Qed.
 Print Assumptions c22_stored_with_its_epoch.
 
+(* the same when verification and the store region are separate steps
+   (SessReqBegin ... anything ... SessReqStore): the epoch test happens in the
+   store region, against the epoch of THAT moment *)
+Theorem c22_store_checks_epoch_at_store_time : forall l c seq m d,
+  alive (sc_st (scalls (run l) c)) = true -> spend (run l) c = Some (seq, RSend m) ->
+  sbox (step (run l) (SessReqStore c)) d <> sbox (run l) d ->
+  m_ver m = true /\ m_from m = sc_src (scalls (run l) c) /\ seq = epoch_of (run l) c /\
+  side (ses (run l) (sc_s (scalls (run l) c))) (negb (sc_isA (scalls (run l) c))) = Some d /\
+  mb_recv (sbox (step (run l) (SessReqStore c)) d) = Some m /\
+  mb_gep (sbox (step (run l) (SessReqStore c)) d) = seq.
+Proof. exact store_routing_run. Qed.
+Print Assumptions c22_store_checks_epoch_at_store_time.
+
+(* a verified message whose stamp has become stale between Begin and Store is dropped *)
+Theorem c22_stale_at_store_dropped : forall st c seq m,
+  spend st c = Some (seq, RSend m) -> m_ver m = true -> m_from m = sc_src (scalls st c) ->
+  seq < epoch_of st c ->
+  sess_req_store c st = set_spend st (upd (spend st) c None).
+Proof. exact store_stale_no_effect. Qed.
+Print Assumptions c22_stale_at_store_dropped.
+
 (* ... and when a write loop delivers it, that epoch is still the current one:
    no message submitted in one epoch is delivered in a later epoch *)
 Theorem c22_no_cross_epoch_delivery : forall l c m,
@@ -55,6 +76,13 @@ Print Assumptions c22_no_cross_epoch_delivery.
 (* non-vacuity: attach, attach, usurp by a third Session call of peer 1 while the
    second is still registered; after the write loops ran, the remaining peer
    has been told the new epoch and the replaced call ended with the replaced error *)
+Example c22_nonvacuous_split :
+  let st := run [SessStart 0 0 0 (RInit (Some 1)); SessStart 1 1 0 (RInit (Some 0)); SessIter 0; SessIter 1;
+                 SessReqBegin 0 2 (RSend {| m_seqno := 1; m_tag := 1; m_ver := true; m_from := 0; m_pk := 0 |});
+                 SessEnd 1 true; SessStart 2 1 0 (RInit (Some 0)); SessReqStore 0; SessIter 0; SessIter 2] in
+  sc_out (scalls st 2) = [SOpened 4] /\ sc_out (scalls st 0) = [SOpened 2; SOpened 4] /\ spend st 0 = None.
+Proof. split; [vm_compute; reflexivity|]. split; vm_compute; reflexivity. Qed.
+
 Definition c22_demo : list action :=
   [SessStart 0 0 0 (RInit (Some 1)); SessStart 1 1 0 (RInit (Some 0)); SessIter 0; SessIter 1;
    SessStart 2 1 0 (RInit (Some 0)); SessIter 0; SessIter 1; SessEnd 1 false; SessIter 2].
